@@ -105,7 +105,10 @@ using ProfileFn = void (*)(const json& plan, Ctx& ctx);
 ProfileFn findProfile(const std::string& name);
 
 // helpers shared by profiles
-uint64_t batteryDigest(NifFile& nif, Ctx& ctx, uint64_t sampleSalt = 0); // the query battery (5.3)
+using BatteryTrace = std::vector<std::pair<std::string, uint64_t>>;
+// the query battery (5.3). trace: running hash after each group (to name the first group that differs);
+// headerTables=false leaves out string-table / block-size accessors (storage details a save may legitimately normalise)
+uint64_t batteryDigest(NifFile& nif, Ctx& ctx, uint64_t sampleSalt = 0, BatteryTrace* trace = nullptr, bool headerTables = true);
 
 // initial state: {"sample":name} | {"synth":{...}} | {"builder":{...}} | {"create":version}
 // returns bytes of a file (for sample/synth) or builds directly into nif.
